@@ -58,6 +58,41 @@ def replay(col, case):
         col.nontrivial.add(json.dumps([case["K"], case["Sa"], case["Sy"]]))
 
 
+def replay_sequence(col, group):
+    """Several cases of one shape pushed through the SAME array objects (values overwritten in place between the calls):
+    every call must answer for the values the arrays hold NOW (a result remembered for these objects would be stale)."""
+    from typhon.retrieval.oem import (averaging_kernel_matrix, error_covariance_matrix, retrieval_gain_matrix)
+    from typhon.retrieval.oem.error import retrieval_noise
+    first = group[0]
+    K = np.array(first["K"], dtype=float)
+    Sa = np.array(first["Sa"], dtype=float)
+    Sy = np.array(first["Sy"], dtype=float)
+    m, n = K.shape
+    e_y = np.array([1.0 if i % 2 == 0 else -1.0 for i in range(m)])
+    for step, case in enumerate(group):
+        K[...] = np.array(case["K"], dtype=float)
+        Sa[...] = np.array(case["Sa"], dtype=float)
+        Sy[...] = np.array(case["Sy"], dtype=float)
+        rep = {"abstract": {"K": case["K"], "S_a": case["Sa"], "S_y": case["Sy"], "step_on_the_same_array_objects": step + 1,
+                            "earlier_values": [{"K": g["K"], "S_a": g["Sa"], "S_y": g["Sy"]} for g in group[:step]][-2:]}}
+        for label, fn, want in (("retrieval_noise", lambda: retrieval_noise(K, Sa, Sy, e_y), np.array([fl(x) for x in case["noise"]])),
+                                ("retrieval_gain_matrix", lambda: retrieval_gain_matrix(K, Sa, Sy), mat(case["G"])),
+                                ("error_covariance_matrix", lambda: error_covariance_matrix(K, Sa, Sy), mat(case["S"])),
+                                ("averaging_kernel_matrix", lambda: averaging_kernel_matrix(K, Sa, Sy), mat(case["A"]))):
+            try:
+                got = np.asarray(fn(), dtype=float)
+            except Exception as ex:
+                col.violation(label + "-raises-" + type(ex).__name__ + "-on-reused-arrays", dict(rep, observed=repr(ex)[:200]))
+                continue
+            col.count(1)
+            if not allclose(got, want, 1e-9):
+                col.violation(label + "-stale-or-wrong-on-reused-arrays", dict(rep, expected=want.tolist(), observed=got.tolist()))
+        if not (np.array_equal(K, np.array(case["K"], dtype=float)) and np.array_equal(Sa, np.array(case["Sa"], dtype=float))
+                and np.array_equal(Sy, np.array(case["Sy"], dtype=float))):
+            col.violation("oem-overwrites-input", rep)
+            return
+
+
 def limit_family(col, _):
     """K = (1 0), Sa = I, Sy = (c): closed forms model-checked for rational c (OemProps!LimitFamily), evaluated here for
     very small noise, where a truncating pseudo-inverse would drop the unobserved direction."""
@@ -84,7 +119,8 @@ def run(ctx):
                 "from a catalogue (identity, widely different scales, correlated) for all nine shapes n, m in 1..3 and "
                 "model-checks in exact rational arithmetic: n-form gain = m-form gain, A = G K = I - S Sa^-1, S symmetric "
                 "positive definite, Sa - S positive semidefinite, spectrum of A in [0, 1); the printed S, G, A, A(x - xa), "
-                "G e_y are compared (1e-9) with the five real functions. Non-trivial: non-square or rank-deficient K.")
+                "G e_y are compared (1e-9) with the five real functions; sequences of cases are also pushed through the SAME array "
+                "objects, overwritten in place between the calls. Non-trivial: non-square or rank-deficient K.")
     d = ctx.tlc_dir("num")
     cases = []
     for n in (1, 2, 3):
@@ -101,6 +137,11 @@ def run(ctx):
     if len(cases) < 100:
         raise MachineryError("too few OEM cases")
     pmap(ctx, replay, cases)
+    groups = {}
+    for c in cases:
+        groups.setdefault((len(c["K"]), len(c["K"][0])), []).append(c)
+    seqs = [g[i:i + 4] for g in groups.values() for i in range(0, len(g), 4)]
+    pmap(ctx, replay_sequence, seqs)
     pmap(ctx, limit_family, [0], procs=1)
     ctx.traces += len(cases)
     c = next(c for c in cases if len(c["K"]) == 2 and len(c["K"][0]) == 3)
